@@ -229,7 +229,7 @@ func secretKeyResponseFieldRuleFor(P *Program, R *Report, rule string) {
 		// find the exponentiation of R[0] on the reconstruction path
 		found := false
 		var seenExps []string
-		for _, f := range P.reachableFuncs(cc) {
+		scan := func(f *ssa.Function) {
 			for _, c := range callsIn(f) {
 				call, ok := c.(*ssa.Call)
 				if !ok {
@@ -261,6 +261,10 @@ func secretKeyResponseFieldRuleFor(P *Program, R *Report, rule string) {
 					}
 				}
 			}
+		}
+		// (a power taken inside a local closure or helper is examined with its parameters bound to the call's arguments)
+		for _, f := range P.reachableFuncs(cc) {
+			deepVisit(P, f, 1, scan)
 		}
 		R.decide(rule, FuncKey(skr)+":field", "SecretKeyResponse() returns the response used as exponent of R[0] when reconstructing the commitment", found,
 			fmt.Sprintf("returns %s; exponents of R[0] on the reconstruction path: %v", field, seenExps), P.Pos(skr.Pos()))
